@@ -162,6 +162,9 @@ def run(ctx):
 
 
 def replay(ctx, data):
+    from props import schemax as _sx
+    if isinstance(data, dict) and _sx.replay_family_build(ctx, data):
+        return
     winit()
     a, b, kind, detail, plan = one((data['a'], data['b']))
     print('replay:', kind, detail)
